@@ -450,6 +450,40 @@ static void budget_placed(const args_t *a, long idx, unsigned long c, unsigned n
     n_events += cb.nev;
 }
 
+/* thorough: the real thing for one power - 2^27 - 32 + d feed calls through the API after a full limit of output
+ * (about four minutes), then generation under the same monitors; where the hook exists it also confirms that the
+ * counter is what budget_placed() assumes that history produces. */
+static void budget_real_feeds(const args_t *a, long idx, int d)
+{
+    tinyjambu_prng_state_t st, tw;
+    static cb_t cb;
+    budget_t b = {0, 1024, 0};
+    rng_t r = rng_for(a->seed, 0xB0DA, (uint64_t)idx);
+    uint8_t fed[8] = {1, 1, 2, 3, 5, 8, 13, 21};
+    unsigned long nf = (1ul << 27) - 32 + (unsigned long)d, i;
+    size_t e0, e1, oa, ob, n = 1024 + 96;
+    char ctx[128];
+    snprintf(ctx, sizeof ctx, "1024 bytes generated, then %lu feed calls through the API, limit 1024", nf);
+    set_case("{\"h\":\"prng\",\"mode\":\"budget-real-feeds\",\"i\":%ld,\"pre_bytes\":1024,\"feeds\":%lu,\"limit\":1024}", idx, nf);
+    ++n_eval; cls_add(mix64(0xB0DA, (uint64_t)idx)); emit_sample();
+    cb_reset(&cb, a->seed, (uint64_t)idx, NULL, 0, 0);
+    tinyjambu_prng_init_user(&st, entropy_cb, &cb, NULL, 0);
+    e0 = cb.nev; lib_generate(&st, &cb, 1024, &r); budget_generate(&b, &cb, e0, 1024, ctx);
+    for (i = 0; i < nf; ++i) tinyjambu_prng_feed(&st, fed, (size_t)(i & 7));
+    n_feed += nf;
+    if (tinyjambu_prng_verif_get_counter && tinyjambu_prng_verif_get_counter(&st) != 33 + nf)
+        emit_viol("hook-model-mismatch", "%s: the block counter is %lu, the placed-counter histories assume %lu", ctx, tinyjambu_prng_verif_get_counter(&st), 33 + nf);
+    memcpy(&tw, &st, sizeof st);
+    tinyjambu_prng_feed(&tw, fed, 3);
+    e0 = cb.nev; lib_generate(&st, &cb, n, &r); budget_generate(&b, &cb, e0, n, ctx);
+    oa = cb.nev > e0 ? cb.ev[e0].off : n + 1;
+    e1 = cb.nev; lib_generate(&tw, &cb, n, &r);
+    ob = cb.nev > e1 ? cb.ev[e1].off : n + 1;
+    ++n_twin;
+    if (ob > oa) emit_viol("feed-delays-reseed", "%s: after ONE MORE feed the next entropy request came after %zu bytes instead of %zu", ctx, ob, oa);
+    n_events += cb.nev;
+}
+
 static void budget_random(const args_t *a, long idx)
 {
     static const size_t LIM[] = {0, 1, 31, 32, 33, 64, 100, 1024, 4096, 1048576, 1048577, (size_t)-1, 65536, 3000};
@@ -751,6 +785,8 @@ int main(int argc, char **argv)
                   if (mine(&a, idx)) budget_placed(&a, idx, (unsigned long)((1L << PW[pw]) + d), f, LIMS[l], pre);
               } }
         } else if (a.batch == 0) emit_info("near-counter-wrap histories skipped: this build has no RWEATHER_TINYJAMBU_VERIF hook");
+    } else if (!strcmp(a.mode, "realfeeds")) {
+        for (i = 0; i < 3; ++i, ++idx) if (mine(&a, idx)) budget_real_feeds(&a, idx, (int)i - 1);
     } else if (!strcmp(a.mode, "faults")) {
         int p, s[12], c;
         static const size_t CL[3] = {0, 5, 100};
